@@ -105,6 +105,7 @@ func (elseIfExpressionParser) Parse(pi *parse.Input) (r ElseIfExpression, ok boo
 }
 
 var endElseParser = parse.All(
+	parse.OptionalWhitespace,
 	parse.Rune('}'),
 	parse.OptionalWhitespace,
 	parse.String("else"),
